@@ -255,6 +255,26 @@ def program_tokens(P, txname="t"):
             expr(m["value"], out)
             out.w(",")
         out.w("}")
+    for b in t.get("cardano", []):
+        if b["k"] == "donation":
+            out.w("cardano", "::", "treasury_donation", "{")
+            field(out, "coin", b["coin"])
+        elif b["k"] == "plutus_witness":
+            out.w("cardano", "::", "plutus_witness", "{")
+            field(out, "version", b["version"])
+            field(out, "script", b["script"])
+        elif b["k"] == "native_witness":
+            out.w("cardano", "::", "native_witness", "{")
+            field(out, "script", b["script"])
+        elif b["k"] == "publish":
+            out.w("cardano", "::", "publish", "{")
+            for f in ("to", "amount", "datum", "version", "script"):
+                field(out, f, b[f])
+        elif b["k"] == "vote_deleg":
+            out.w("cardano", "::", "vote_delegation_certificate", "{")
+            field(out, "drep", b["drep"])
+            field(out, "stake", b["stake"])
+        out.w("}")
     for w in t.get("withdrawals", []):
         out.w("cardano", "::", "withdrawal", "{")
         field(out, "from", w["from"])
